@@ -4,7 +4,7 @@
    happened to iterate (partial: Go's randomised map iteration itself cannot be exhibited by a Gallina
    model; the repetition run is what detects a leak of map order). *)
 From Coq Require Import Sorted Permutation.
-From Verif Require Import Base.Bytes Model.KeyTree Model.CallTree Proofs.KeyTree_proofs Proofs.CallTree_proofs Gen.GenProps Gen.G16.
+From Verif Require Import Base.Bytes Model.KeyTree Model.CallTree Proofs.KeyTree_proofs Proofs.CallTree_proofs Gen.GenProps Gen.Flow Gen.GFlow Gen.G16.
 Open Scope N_scope.
 
 Theorem C16_source_reviewed : group_ok 16 = true.
@@ -37,3 +37,11 @@ Example C16_example_order_independent :
   let b := fold_left kstep [KReg 1 None 5 None 10 [1]; KReg 1 (Some (5, 10)) 8 None 11 [3]; KReg 1 (Some (5, 10)) 7 None 11 [9]] kt_empty in
   indices_of_changes a 1 [1] [] = Some [[3]; [9]] /\ indices_of_changes b 1 [1] [] = Some [[3]; [9]].
 Proof. split; vm_compute; reflexivity. Qed.
+
+(** shared mutable package-level values: the 256-bit constants of vm/constants.go are pointers and uint256 arithmetic works in
+    place on its receiver; read from the syntax trees on every run: no function uses one of them as the receiver of a
+    modifying method, assigns it or takes its address (the journal helpers copy them first: `new(uint256.Int).Add(c, zero)`),
+    so one execution cannot change what the next one in the same process computes with them *)
+Theorem C16_shared_constants_never_written : const_writes = [].
+Proof. exact shared_constants_never_written. Qed.
+Print Assumptions C16_shared_constants_never_written.
